@@ -36,8 +36,11 @@ ASSUMPTIONS = [
 
 MANIFEST_ENTRY = {
     'technique': 'exhaustive enumeration of the (inputs, nodes, cores, trials) '
-                 'box + Hypothesis for large values; conservation oracle over '
-                 'the recorded Process arguments',
+                 'box + Hypothesis for large values and generated input file '
+                 'names; conservation oracle over the recorded Process '
+                 'arguments; Hypothesis runs in which a stand-in child writes '
+                 'its result file, jobs run in a drawn order with / without '
+                 '--delete-existing and the result directory is read back',
     'level_text': 'Every configuration of a finite box (all job indices) is '
                   'executed against the real click callback and the union of '
                   'launched tasks is checked for conservation of trials, '
